@@ -81,6 +81,23 @@ def _lin(ops, pairs):
     return tot
 
 
+def specs_from(mk, p):
+    """shell specs for the params ls / Ks / Ms; optional `share` {i: j}: shell i sits on the centre of the earlier shell j;
+    optional `twin` {i: j}: shell i has the exponents and coefficients of the earlier shell j (a homonuclear pair)"""
+    share, twin = p.get("share", {}), p.get("twin", {})
+    specs = []
+    for i, (l, K, M) in enumerate(zip(p["ls"], p["Ks"], p["Ms"])):
+        coord = specs[share[str(i)]]["A"] if str(i) in share else None
+        if str(i) in twin:
+            t = specs[twin[str(i)]]
+            tag = "ABCD"[i]
+            s = dict(l=l, A=coord if coord is not None else [mk.var(f"{tag}{x}") for x in "xyz"], exps=t["exps"], coeffs=t["coeffs"], tag=tag)
+        else:
+            s = shell_spec(mk, "ABCD"[i], l, K, M, coord=coord)
+        specs.append(s)
+    return specs
+
+
 def basis_from(mk, specs, types, normalise=True):
     return [make_shell(mk, s, LETTER[t], normalise=normalise) for s, t in zip(specs, types)]
 
